@@ -46,11 +46,6 @@ theorem sublist_eq_filter {α : Type} (l' l : List α) (hs : l'.Sublist l) (hnd 
       · exact absurd h1 hnd.1
       · exact h
 
-/-- vanishing a key on the abstract store: its own events and the gift wraps that `p`-tag it go -/
-def absVanish (a : Abs) (pk : Bytes) : Abs :=
-  { a with live := a.live.filter fun e =>
-      !(e.pubkey == pk) && !(e.kind == 1059 && tagsMatch e.tags KEY_P (hexOf pk)) }
-
 /-- **refinement of `vanish`** (two queries through the index plans, then removal one by one) -/
 theorem vanish_refines (s : Store) (hi : Inv s) (hau : AddrUniq s.db.live) (hlen : s.db.live.length < U32MAX)
     (ht : ∀ y ∈ s.db.live, y.e.createdAt ≤ U64MAX) (pk : Bytes) :
@@ -91,21 +86,6 @@ theorem vanish_refines (s : Store) (hi : Inv s) (hau : AddrUniq s.db.live) (hlen
 
 /-! ### rebuild -/
 
-def insertByIdE (x : EventRec) : List EventRec → List EventRec
-  | [] => [x]
-  | y :: ys => if bytesLt x.id y.id then x :: y :: ys else y :: insertByIdE x ys
-
-def relogE : List EventRec → Nat → List (Nat × EventRec) × Nat
-  | [], e => ([], e)
-  | x :: xs, e => ((align8 e, x) :: (relogE xs (align8 e + eventLen x)).1, (relogE xs (align8 e + eventLen x)).2)
-
-/-- rebuilding the abstract store: the retrievable events, in id order, appended to a fresh map;
-markers untouched -/
-def absRebuild (a : Abs) : Abs :=
-  { a with live := a.live.foldr insertByIdE [],
-           log := (relogE (a.live.foldr insertByIdE []) 8).1,
-           «end» := (relogE (a.live.foldr insertByIdE []) 8).2 }
-
 theorem insertById_map (x : SEv) (l : List SEv) :
     (insertById x l).map (·.e) = insertByIdE x.e (l.map (·.e)) := by
   induction l with
@@ -133,14 +113,6 @@ theorem rebuild_refines (s : Store) : Abs.of (rebuild s) = absRebuild (Abs.of s)
   obtain ⟨h1, h2⟩ := relog_map (s.db.live.foldr insertById []) 8
   have h3 := relog_events (s.db.live.foldr insertById []) 8
   simp only [Abs.of, rebuild, absRebuild, h1, h2, h3, sortById_map]
-
-/-- all five operations of the abstract machine -/
-def absOp (a : Abs) : Op → Abs
-  | .store e => (absStore a e).2
-  | .remove id => absRemove a id
-  | .vanish pk => absVanish a pk
-  | .reopen => a
-  | .rebuild => absRebuild a
 
 /-- an operation other than vanish (whose refinement needs the bounds of `vanish_refines`) -/
 inductive BOp where
